@@ -379,6 +379,13 @@ func (b *BloomSearchEngine) processIngestRequest(
 	for partitionID, rows := range partitionedRows {
 		rowBytesList := make([][]byte, len(rows))
 		for i, row := range rows {
+			// A nil row marshals to the JSON literal null, which is not an
+			// object: it would be acknowledged and then fail every query that
+			// scans its block. Reject the batch like any unserializable row.
+			if row == nil {
+				sendOptionalWithContext(ctx, req.doneChan, fmt.Errorf("failed to serialize row: row is nil"))
+				return
+			}
 			rowBytes, err := json.Marshal(row)
 			if err != nil {
 				sendOptionalWithContext(ctx, req.doneChan, fmt.Errorf("failed to serialize row: %w", err))
